@@ -34,6 +34,24 @@ var scriptText = map[string]string{
 	"i0eq1":      "@[0] == 1",
 	"aeq1orbeq2": "@.a == 1 || @.b == 2",
 	"lt3":        "@ < 3",
+	// root-relative (the driver's `rscript`): `$` is the document the path is applied to
+	"eqq":   "@ == $.q",
+	"neqq":  "@ != $.q",
+	"aeqq":  "@.a == $.q",
+	"aneqq": "@.a != $.q",
+	"qeqa":  "$.q == @.a",
+}
+
+// the scripts with a `$` operand; the paths that use them are applied to documents {"a": tree, "q": int}
+var rootScriptNames = []string{"eqq", "neqq", "aeqq", "aneqq", "qeqa"}
+
+func isRootScript(name string) bool {
+	for _, n := range rootScriptNames {
+		if n == name {
+			return true
+		}
+	}
+	return false
 }
 
 var scriptNames = []string{"gt1", "eq2", "aeq1", "agt1", "i0eq1", "aeq1orbeq2", "lt3"}
